@@ -52,6 +52,19 @@ TARGETS = [
      dict(img="f2", x_coords="f2", y_coords="f2", target_values="f1", max_distance="num", distance_metric="int",
           process_mode="int")),
     ("calcDirection", "xrspatial/proximity.py", "_calc_direction", dict(x1="num", x2="num", y1="num", y2="num")),
+    # the red-black status tree of viewshed.py: tree_vals is (n, 8) numeric, tree_nodes is (n, 4) integer; the
+    # NIL node is index -1 = the last row (numba's negative index wraps; ILang's normIdx models it)
+    ("vsFindValueMin", "xrspatial/viewshed.py", "_find_value_min_value", dict(tree_vals="f2", node_id="int")),
+    ("vsTreeMinimum", "xrspatial/viewshed.py", "_tree_minimum", dict(tree_nodes="i2", x="int")),
+    ("vsTreeSuccessor", "xrspatial/viewshed.py", "_tree_successor", dict(tree_nodes="i2", x="int")),
+    ("vsLeftRotate", "xrspatial/viewshed.py", "_left_rotate", dict(tree_vals="f2", tree_nodes="i2", root="int", x="int")),
+    ("vsRightRotate", "xrspatial/viewshed.py", "_right_rotate", dict(tree_vals="f2", tree_nodes="i2", root="int", y="int")),
+    ("vsInsert", "xrspatial/viewshed.py", "_insert_into_tree",
+     dict(tree_vals="f2", tree_nodes="i2", root="int", node_id="int", value="f1")),
+    ("vsSearch", "xrspatial/viewshed.py", "_search_for_node", dict(tree_vals="f2", tree_nodes="i2", root="int", key="num")),
+    ("vsQuery", "xrspatial/viewshed.py", "_max_grad_in_status_struct",
+     dict(tree_vals="f2", tree_nodes="i2", root="int", distance="num", angle="num", gradient="num")),
+    ("vsDelete", "xrspatial/viewshed.py", "_delete_from_tree", dict(tree_vals="f2", tree_nodes="i2", root="int", key="num")),
 ]
 
 # functions that stay calls: name -> (number of numeric args, number of trailing integer args)
@@ -100,11 +113,16 @@ class Module:
         self.tree = ast.parse(open(os.path.join(repo, rel)).read())
         self.funcs = {n.name: n for n in self.tree.body if isinstance(n, ast.FunctionDef)}
         self.consts = {}
+        self.fconsts = {}
         for n in self.tree.body:
             if isinstance(n, ast.Assign) and len(n.targets) == 1 and isinstance(n.targets[0], ast.Name):
                 v = const_int(n.value)
                 if v is not None:
                     self.consts[n.targets[0].id] = v
+                else:
+                    fv = const_float(n.value)
+                    if fv is not None:
+                        self.fconsts[n.targets[0].id] = fv
 
     def find(self, path):
         """`outer.inner`: a function defined inside another one"""
@@ -132,6 +150,15 @@ def const_int(n):
         return n.value
     if isinstance(n, ast.UnaryOp) and isinstance(n.op, ast.USub):
         v = const_int(n.operand)
+        return None if v is None else -v
+    return None
+
+
+def const_float(n):
+    if isinstance(n, ast.Constant) and isinstance(n.value, float):
+        return n.value
+    if isinstance(n, ast.UnaryOp) and isinstance(n.op, ast.USub):
+        v = const_float(n.operand)
         return None if v is None else -v
     return None
 
@@ -177,6 +204,12 @@ class Fn:
 
     def arr(self, name):
         return self.amap.get(name, self.prefix + name)
+
+    def arr_name(self, name):
+        a = self.arr(name)
+        if isinstance(a, tuple):
+            raise Untranslatable("shape / whole-array use of the row view " + name)
+        return a
 
     # ---------------------------------------------------------------- sorts
     def infer(self):
@@ -254,23 +287,63 @@ class Fn:
     def callee(self, call, prefix=None):
         name = call.func.id
         f = self.mod.funcs[name]
-        if call.keywords:
-            raise Untranslatable("keyword arguments in a call of " + name)
         params = [a.arg for a in f.args.args]
-        if len(call.args) != len(params):
-            raise Untranslatable("arity of " + name)
+        args = self.call_args(call)
         ptypes, amap = {}, {}
-        for p, a in zip(params, call.args):
-            ty = self.sort(a)
+        for p, a in zip(params, args):
+            ty = self.sort_arg(a)
             if ty is None:
                 ty = "int"      # not settled yet (first inference rounds)
             ptypes[p] = ty
             if ty in ARR:
-                if not isinstance(a, ast.Name):
-                    raise Untranslatable("array argument that is not a name: " + src(a))
-                amap[p] = self.arr(a.id)
+                amap[p] = self.arr_arg(a, prefix or "")
         return Fn(self.mod, f, ptypes, prefix=prefix or (self.prefix + name + "$"), amap=amap,
                   depth=self.depth + 1, report=self.report)
+
+    def call_args(self, call):
+        """positional argument nodes of a call of a module function: keywords and defaults resolved"""
+        name = call.func.id
+        f = self.mod.funcs[name]
+        params = [a.arg for a in f.args.args]
+        defaults = dict(zip(params[len(params) - len(f.args.defaults):], f.args.defaults))
+        if f.args.vararg or f.args.kwarg or f.args.kwonlyargs:
+            raise Untranslatable("signature of " + name)
+        given = dict(zip(params, call.args))
+        if len(call.args) > len(params):
+            raise Untranslatable("arity of " + name)
+        for kw in call.keywords:
+            if kw.arg is None or kw.arg not in params or kw.arg in given:
+                raise Untranslatable("keyword argument of " + name)
+            given[kw.arg] = kw.value
+        out = []
+        for p in params:
+            if p in given:
+                out.append(given[p])
+            elif p in defaults:
+                d = defaults[p]
+                if not (isinstance(d, ast.Constant) or (isinstance(d, ast.Name) and (d.id in self.mod.consts or d.id in self.mod.fconsts))):
+                    raise Untranslatable("default value of " + p)
+                out.append(d)
+            else:
+                raise Untranslatable("arity of " + name)
+        return out
+
+    def sort_arg(self, a):
+        """sort of a call argument; `m[i]` of a 2-D array is a 1-D row view"""
+        if isinstance(a, ast.Subscript) and isinstance(a.value, ast.Name) and self.types.get(a.value.id) in ("f2", "i2") \
+                and not isinstance(a.slice, (ast.Tuple, ast.Slice)):
+            return "f1" if self.types[a.value.id] == "f2" else "i1"
+        return self.sort(a)
+
+    def arr_arg(self, a, prefix):
+        if isinstance(a, ast.Name):
+            return self.arr(a.id)
+        if isinstance(a, ast.Subscript) and isinstance(a.value, ast.Name):
+            base = self.arr(a.value.id)
+            if isinstance(base, tuple):
+                raise Untranslatable("row of a row view")
+            return ("row", base, prefix + "row$" + a.value.id, a.slice)
+        raise Untranslatable("array argument " + src(a))
 
     def sort(self, e, alloc_ok=False):
         """sort of an expression, None when it depends on a name without a sort yet"""
@@ -287,6 +360,8 @@ class Fn:
                 return self.types[e.id]
             if e.id in self.mod.consts:
                 return "int"
+            if e.id in self.mod.fconsts:
+                return "num"
             return None
         if isinstance(e, ast.Attribute):
             s = src(e)
@@ -427,6 +502,8 @@ class Fn:
 
     def ie(self, e):
         """integer expression (Lean text)"""
+        if isinstance(e, ast.Name) and e.id.startswith("$row:"):
+            return f"(.var {lstr(e.id[5:])})"
         t = self.need_sort(e)
         if t == "bool":
             raise Untranslatable("boolean used as an integer: " + src(e))
@@ -436,6 +513,8 @@ class Fn:
         if c is not None:
             return f"(.lit {lint(c)})"
         if isinstance(e, ast.Name):
+            if e.id.startswith("$row:"):
+                return f"(.var {lstr(e.id[5:])})"
             if e.id in self.types:
                 return f"(.var {lstr(self.v(e.id))})"
             return f"(.lit {lint(self.mod.consts[e.id])})"
@@ -463,7 +542,7 @@ class Fn:
                 k = const_int(e.slice)
                 if k is None or k < 0:
                     raise Untranslatable("shape index " + src(e))
-                return f"(.dim {lstr(self.arr(base.value.id))} {k})"
+                return f"(.dim {lstr(self.arr_name(base.value.id))} {k})"
             name, idx = self.subscript(e)
             if len(idx) == 1:
                 return f"(.ld1 {lstr(name)} {self.ie(idx[0])})"
@@ -471,14 +550,17 @@ class Fn:
         if isinstance(e, ast.Call):
             fn = src(e.func)
             if fn == "len" and isinstance(e.args[0], ast.Name) and self.types.get(e.args[0].id) in ARR:
-                return f"(.dim {lstr(self.arr(e.args[0].id))} 0)"
-            if fn in ("min", "max") and len(e.args) == 2:
-                return f"(.bin .{fn} {self.ie(e.args[0])} {self.ie(e.args[1])})"
+                return f"(.dim {lstr(self.arr_name(e.args[0].id))} 0)"
+            if fn in ("min", "max") and len(e.args) >= 2 and not e.keywords:
+                out = self.ie(e.args[0])
+                for a in e.args[1:]:
+                    out = f"(.bin .{fn} {out} {self.ie(a)})"
+                return out
             if fn in ("int", "np.int64", "np.int32"):
                 return self.ie(e.args[0])
             if fn == "np.sum" and len(e.args) == 1 and isinstance(e.args[0], ast.Name) \
                     and self.types.get(e.args[0].id) in ("i1", "i2") and not e.keywords:
-                return f"(.sum {lstr(self.arr(e.args[0].id))})"
+                return f"(.sum {lstr(self.arr_name(e.args[0].id))})"
             if fn == "abs":
                 a = self.ie(e.args[0])
                 return f"(.bin .max {a} (.neg {a}))"
@@ -502,7 +584,11 @@ class Fn:
             raise Untranslatable("subscript of a non-array: " + src(e))
         if len(idxs) != ARR[t][1] or any(isinstance(i, ast.Slice) for i in idxs):
             raise Untranslatable("index shape " + src(e))
-        return self.arr(name), idxs
+        target = self.arr(name)
+        if isinstance(target, tuple):        # a row view `m[r]` of a 2-D array: v[k] is m[r, k]
+            _, base, rowvar, _ = target
+            return base, [ast.Name(id="$row:" + rowvar, ctx=ast.Load())] + idxs
+        return target, idxs
 
     def fe(self, e):
         """numeric expression (Lean text); integers are embedded with `.ofInt`"""
@@ -518,6 +604,8 @@ class Fn:
                 raise Untranslatable("literal " + src(e))
             return f"(.lit {lint(fr.numerator)} {fr.denominator})"
         if isinstance(e, ast.Name):
+            if e.id not in self.types and e.id in self.mod.fconsts:
+                return self.fe(ast.Constant(value=self.mod.fconsts[e.id]))
             return f"(.var {lstr(self.v(e.id))})"
         if isinstance(e, ast.Attribute):
             s = src(e)
@@ -560,8 +648,11 @@ class Fn:
             if fn in ("np.float32", "np.float64", "float"):
                 self.report["casts"].append(src(e)[:60])
                 return self.fe(e.args[0])
-            if fn in ("min", "max") and len(e.args) == 2:
-                return f"(.bin .{fn} {self.fe(e.args[0])} {self.fe(e.args[1])})"
+            if fn in ("min", "max") and len(e.args) >= 2 and not e.keywords:
+                out = self.fe(e.args[0])
+                for a in e.args[1:]:
+                    out = f"(.bin .{fn} {out} {self.fe(a)})"
+                return out
             if isinstance(e.func, ast.Name) and e.func.id in EXTERNAL and self.mod.rel in EXTERNAL_IN:
                 nf, ni = EXTERNAL[e.func.id]
                 if len(e.args) != nf + ni or e.keywords:
@@ -642,9 +733,12 @@ class Fn:
         name = call.func.id
         sub = self.callee(call, prefix=f"{self.prefix}{name}{Fn.counter[0]}$")
         stmts = []
-        for p, a in zip(sub.params, call.args):
+        for p, a in zip(sub.params, self.call_args(call)):
             ty = sub.types[p]
             if ty in ARR:
+                view = sub.amap.get(p)
+                if isinstance(view, tuple):
+                    stmts.append(f"(.setI {lstr(view[2])} {self.ie(view[3])})")
                 continue
             stmts.append(self.assign_text(sub.v(p), ty, a))
         body = sub.block(body_of(sub.func))
@@ -700,7 +794,15 @@ class Fn:
             if s.orelse:
                 raise Untranslatable("while-else")
             if contains_user_call(s.test, self.mod):
-                raise Untranslatable("call in a while condition: " + src(s.test))
+                # `while A1 and A2 ...: body` with calls in the conjuncts is `while True:` + one
+                # `if not Ai: break` per conjunct, each preceded by its own (hoisted) callee bodies --
+                # the same evaluation order and short-circuiting as the source
+                conj = s.test.values if isinstance(s.test, ast.BoolOp) and isinstance(s.test.op, ast.And) else [s.test]
+                parts = []
+                for c in conj:
+                    parts += self.with_pre(lambda c=c: [f"(.ite {self.be(c)}\n  .skip\n  .brk)"])
+                body = seq(parts + [self.block(s.body)])
+                return [f"(.while .tt\n{ind(body)})"]
             self.pre = []
             return [f"(.while {self.be(s.test)}\n{ind(self.block(s.body))})"]
         if isinstance(s, ast.For):
@@ -719,9 +821,15 @@ class Fn:
                     self.inline_value(s.value)
                     return []
                 return self.with_pre(go)
+            if isinstance(s.value, ast.Call) and src(s.value.func) == "print":
+                self.report.setdefault("dropped", []).append("print")
+                return []
             raise Untranslatable("expression statement " + src(s))
         if isinstance(s, ast.Pass):
             return []
+        if isinstance(s, ast.Raise):
+            what = src(s.exc.func) if isinstance(s.exc, ast.Call) else src(s.exc) if s.exc else "raise"
+            return [f"(.fail {lstr(what)})"]
         raise Untranslatable("statement " + src(s).splitlines()[0])
 
     def ret(self, s):
@@ -742,8 +850,8 @@ class Fn:
                     raise Untranslatable("returned array expression " + src(v))
                 self.ret_arrays = getattr(self, "ret_arrays", {})
                 self.ret_arrays.setdefault(k, [])
-                if self.arr(v.id) not in self.ret_arrays[k]:
-                    self.ret_arrays[k].append(self.arr(v.id))
+                if self.arr_name(v.id) not in self.ret_arrays[k]:
+                    self.ret_arrays[k].append(self.arr_name(v.id))
                 continue
             # a variable declared numeric by another return keeps that sort
             rty = self.ret_types[k]
@@ -769,17 +877,17 @@ class Fn:
                 raise Untranslatable("range arity")
             return [f"(.forRange {lstr(self.v(s.target.id))} {lo} {hi} {st}\n{ind(self.block(s.body))})"]
         if isinstance(it, ast.Name) and self.types.get(it.id) == "f1" and isinstance(s.target, ast.Name):
-            return [f"(.forIn {lstr(self.v(s.target.id))} {lstr(self.arr(it.id))}\n{ind(self.block(s.body))})"]
+            return [f"(.forIn {lstr(self.v(s.target.id))} {lstr(self.arr_name(it.id))}\n{ind(self.block(s.body))})"]
         if isinstance(it, ast.Call) and src(it.func) == "zip" and isinstance(s.target, ast.Tuple) \
                 and len(it.args) == len(s.target.elts) >= 1 \
                 and all(isinstance(x, ast.Name) and self.types.get(x.id) == "i1" for x in it.args) \
                 and all(isinstance(x, ast.Name) for x in s.target.elts):
             self.tmp += 1
             k = self.v(f"zip{self.tmp}$k")
-            n = f"(.dim {lstr(self.arr(it.args[0].id))} 0)"
+            n = f"(.dim {lstr(self.arr_name(it.args[0].id))} 0)"
             for x in it.args[1:]:
-                n = f"(.bin .min {n} (.dim {lstr(self.arr(x.id))} 0))"
-            binds = [f"(.setI {lstr(self.v(t.id))} (.ld1 {lstr(self.arr(x.id))} (.var {lstr(k)})))"
+                n = f"(.bin .min {n} (.dim {lstr(self.arr_name(x.id))} 0))"
+            binds = [f"(.setI {lstr(self.v(t.id))} (.ld1 {lstr(self.arr_name(x.id))} (.var {lstr(k)})))"
                      for t, x in zip(s.target.elts, it.args)]
             body = seq(binds + [self.block(s.body)])
             return [f"(.forRange {lstr(k)} (.lit 0) {n} (.lit 1)\n{ind(body)})"]
@@ -793,7 +901,7 @@ class Fn:
             if not all(isinstance(e, ast.Name) for e in t.elts):
                 raise Untranslatable("tuple target " + src(t))
             if isinstance(value, ast.Attribute) and value.attr == "shape" and isinstance(value.value, ast.Name):
-                return [f"(.setI {lstr(self.v(e.id))} (.dim {lstr(self.arr(value.value.id))} {k}))"
+                return [f"(.setI {lstr(self.v(e.id))} (.dim {lstr(self.arr_name(value.value.id))} {k}))"
                         for k, e in enumerate(t.elts)]
             if isinstance(value, ast.Call) and isinstance(value.func, ast.Name) and self.mod.jitted(value.func.id):
                 vals = self.inline_value(value)
@@ -832,7 +940,7 @@ class Fn:
                 ty = self.types.get(t.value.id)
                 if ty not in ARR:
                     raise Untranslatable("fill of " + src(t))
-                nm = self.arr(t.value.id)
+                nm = self.arr_name(t.value.id)
                 dims = "[" + ", ".join(f"(.dim {lstr(nm)} {k})" for k in range(ARR[ty][1])) + "]"
                 if ARR[ty][0] == "F":
                     return [f"(.allocF {lstr(nm)} {dims} {self.fe(value)})"]
@@ -854,7 +962,7 @@ class Fn:
 
     def alloc(self, name, ty, value):
         kind, nd = ARR[ty]
-        nm = self.arr(name)
+        nm = self.arr_name(name)
         factor = None
         if isinstance(value, ast.BinOp) and isinstance(value.op, ast.Mult):      # np.ones(...) * c
             value, factor = value.left, value.right
@@ -869,7 +977,7 @@ class Fn:
             shape = value.args[0] if value.args else next(k.value for k in value.keywords if k.arg == "shape")
             dims = self.alloc_dims(shape)
             if isinstance(dims, tuple):
-                d = "[" + ", ".join(f"(.dim {lstr(self.arr(dims[1]))} {k})" for k in range(nd)) + "]"
+                d = "[" + ", ".join(f"(.dim {lstr(self.arr_name(dims[1]))} {k})" for k in range(nd)) + "]"
             else:
                 d = "[" + ", ".join(self.ie(x) for x in dims) + "]"
             base = {"np.zeros": 0, "np.ones": 1, "np.empty": 0}.get(fn)
@@ -883,7 +991,7 @@ class Fn:
             else:
                 fill = f"(.lit {base} 1)" if kind == "F" else f"(.lit {base})"
         elif fn in ("np.zeros_like", "np.empty_like", "np.ones_like"):
-            other = self.arr(value.args[0].id)
+            other = self.arr_name(value.args[0].id)
             d = "[" + ", ".join(f"(.dim {lstr(other)} {k})" for k in range(nd)) + "]"
             base = 1 if fn == "np.ones_like" else 0
             fill = f"(.lit {base} 1)" if kind == "F" else f"(.lit {base})"
@@ -927,6 +1035,7 @@ TY_LEAN = {"int": ".int", "num": ".num", "bool": ".bool", "f1": "(.arrF 1)", "f2
 
 def translate(mods, repo, lean_name, rel, fname, ptypes):
     rep = dict(ok=False, qual=f"{rel}:{fname}")
+    Fn.counter[0] = 0          # inlined callees are numbered per program
     try:
         if rel not in mods:
             mods[rel] = Module(repo, rel)
